@@ -61,6 +61,13 @@ def check(acc, desc, order, repeat=False):
     try:
         if repeat:
             cg.tx.ternary(c)  # an earlier call on the same object must not matter
+            if repeat == "edit":
+                flip = {"and": "or", "or": "and", "xor": "xnor", "xnor": "xor", "nand": "nor", "nor": "nand", "buf": "not", "not": "buf"}
+                for g in sorted(c.graph.nodes):
+                    if c.type(g) in flip:
+                        c.set_type(g, flip[c.type(g)])
+                        break
+                ins = sorted(c.inputs())
         t, mapping = cg.tx.ternary(c)
     except Exception as e:  # noqa: BLE001
         acc.violation("ternary", f"raises:{common.exc_name(e)}", case, repr(e))
@@ -157,8 +164,9 @@ def run(job):
             if check(acc, desc, order):
                 acc.nontrivial += 1
         if (_idx // job["of"]) % 8 == 0:
-            acc.states += 1
+            acc.states += 2
             check(acc, desc, "fwd", repeat=True)
+            check(acc, desc, "fwd", repeat="edit")
         acc.sample({"desc": desc})
         if acc.out_of_time():
             break
